@@ -1,8 +1,14 @@
 (* C11 — property theorems only: each restates the full statement and is closed by the lemma proved in Proofs/. *)
 From Coq Require Import ZArith List Bool.
-From NPS Require Import ListAux PySlice NumpySem Scatter BuildIdx XorBroadcast View Index Assign Reduce Scan RaOps Heap Hash HashRun BitArr RLE RLEOps RLE2d DataClass RowsSpec AssignSpec MapSpec Denote HashSet HashProof.
+From NPS Require Import ListAux PySlice NumpySem Scatter BuildIdx XorBroadcast View Index Assign Reduce Scan RaOps Heap Hash HashRun BitArr RLE RLEOps RLE2d DataClass RowsSpec AssignSpec MapSpec Denote HashInit HashSet HashProof.
 Import ListNotations.
 Open Scope Z_scope.
+
+Theorem C11_Inv_mk :
+  forall (V : Type) (dv : V) (keys : list Z) (vals : list V) (m : Z) (t : table V),
+       NoDup keys -> mk V keys vals m = Ok t -> Inv V dv t (combine keys vals).
+Proof. exact Inv_mk. Qed.
+Print Assumptions C11_Inv_mk.
 
 Theorem C11_table_is_dictionary :
   forall (V : Type) (dv : V) (keys : list Z) (vals : list V) (m : Z) (t : table V) (ops : list (op V)),
@@ -15,6 +21,14 @@ Theorem C11_getv_correct :
        Inv V dv t d -> getv V dv t ks = spec_getv V d ks.
 Proof. exact getv_correct. Qed.
 Print Assumptions C11_getv_correct.
+
+Theorem C11_write_one :
+  forall (V : Type) (dv : V) (t : table V) (d : assoc V) (vb : list (list V)) (k : Z) (v : V),
+       Inv V dv t d ->
+       t_vals t = VAligned vb ->
+       present V d k = true -> Inv V dv (with_vals V t (set_cell vb (slot V t k) v)) (aset V d k v).
+Proof. exact write_one. Qed.
+Print Assumptions C11_write_one.
 
 Theorem C11_setv_correct :
   forall (V : Type) (dv : V) (t : table V) (d : assoc V) (ks : list Z) (vs : list V),
